@@ -314,6 +314,42 @@ pub fn read_raw<T: Read + Seek>(r: &mut E57Reader<T>, pc: &PointCloud, limit: us
     Ok(out)
 }
 
+/// The raw iterator driven through the standard adaptors `skip(skip)` and `step_by(step)` (which call
+/// `Iterator::nth`): must deliver exactly points skip, skip+step, ... of the plain iteration.
+/// `Ok(None)` = the strided view agrees with `all`; `Ok(Some(msg))` = it does not.
+pub fn check_strided<T: Read + Seek>(r: &mut E57Reader<T>, pc: &PointCloud, all: &[Vec<Val>], skip: usize, step: usize, count_too: bool) -> Result<Option<String>, String> {
+    let step = step.max(1);
+    let it = r.pointcloud_raw(pc).map_err(|e| format!("pointcloud_raw: {e}"))?;
+    let mut want = all.iter().skip(skip).step_by(step);
+    let mut k = 0usize;
+    for item in it.skip(skip).step_by(step) {
+        match item {
+            Ok(p) => {
+                let got: Vec<Val> = p.iter().map(val_from_e57).collect();
+                match want.next() {
+                    Some(w) if *w == got => {}
+                    Some(w) => return Ok(Some(format!("skip({skip}).step_by({step}): item {k} (point {}) is {got:?}, plain iteration gives {w:?}", skip + k * step))),
+                    None => return Ok(Some(format!("skip({skip}).step_by({step}): delivers item {k} beyond the {} points of the plain iteration", all.len()))),
+                }
+                k += 1;
+            }
+            Err(e) => return Ok(Some(format!("skip({skip}).step_by({step}): fails at item {k} although plain iteration succeeds: {e}"))),
+        }
+    }
+    if want.next().is_some() {
+        return Ok(Some(format!("skip({skip}).step_by({step}): ends after {k} items, plain iteration has more")));
+    }
+    if !count_too {
+        return Ok(None);
+    }
+    // count() is an adaptor too
+    let n = r.pointcloud_raw(pc).map_err(|e| format!("pointcloud_raw: {e}"))?.count();
+    if n != all.len() {
+        return Ok(Some(format!("count() = {n}, plain iteration yields {} items", all.len())));
+    }
+    Ok(None)
+}
+
 /// Everything the reader reports, as a neutral scene.  `Err` carries the
 /// step that failed first.
 pub fn read_scene<T: Read + Seek>(dev: T) -> Result<(Scene, String), String> {
